@@ -3,6 +3,8 @@
 Decided clauses (DESIGN §5 C01): a Jacobian = d(field); b variational system; c baked
 parameter / wiring; d first integral.  All by partial evaluation of the kernels into terms
 and polynomial identity testing modulo the two distance radicals.
+
+c-memo  caches of compiled right-hand sides are keyed by everything baked into the kernel (hv.memo)
 """
 from __future__ import annotations
 
